@@ -43,6 +43,19 @@ def seq_script(cat, rng, ops, domain):
             b.clear(cur)
             prev_line = prev_val = None
             continue
+        if op == "f" and cat["caps"]["clone"]:
+            # clone_from into a destination with its own, different history (and its own remembered item)
+            gen += 1
+            nxt = "a%d" % gen
+            b.new(nxt)
+            for _ in range(1 + rng.below(3)):
+                w = domain[rng.below(len(domain))]
+                b.push(nxt, w, b.form_for(w))
+            b.raw("clone_from %s %s" % (nxt, cur), ("eq", "ok"), shape="clone_from")
+            b.h[nxt].vals = list(b.h[cur].vals)
+            b.h[nxt].last_pushed = b.h[cur].last_pushed
+            cur = nxt     # the remembered item travels with the data: prev_line / prev_val stay
+            continue
         if op in ("m", "k", "s"):
             gen += 1
             nxt = "a%d" % gen
@@ -125,7 +138,7 @@ def generate(seed, tier):
             dom = domain_for(cat, rng, 2 + rng.below(2))
             ops = []
             for _ in range(2 + rng.below(14)):
-                r = rng.below(14)
-                ops.append("c" if r == 0 else "m" if r == 1 else "k" if r == 2 else "s" if r == 3 else rng.below(len(dom)))
+                r = rng.below(15)
+                ops.append("c" if r == 0 else "m" if r == 1 else "k" if r == 2 else "s" if r == 3 else "f" if r == 4 else rng.below(len(dom)))
             out.append(seq_script(cat, rng.fork(), ops, dom))
     return out
